@@ -16,7 +16,8 @@ RULE = ('random multi-trajectory sets over all label alphabets with disjoint non
         'absent states); thorough adds all trajectories over 4 labels up to length 7 with every '
         'disjoint non-empty (S,F). Compared: waiting-time list in order, pathway dictionary (keys as '
         'sets, per-key times in occurrence order), error kinds. Non-trivial: >= 1 closed event and '
-        '>= 1 frame outside both basins.')
+        '>= 1 frame outside both basins.'
+        ' Added classes: narrow integer arrays with > 127/255 frames, zero-length member trajectories, > 256 trajectories / > 2^16 frames / > 64..260 states, other memory layouts, a LumpedStateTraj whose macro trajectories are the input.')
 TRUSTED = ['numba typed List/Dict conversion exercised, not modelled']
 ASSUMPTIONS = ['labels within +-2^29']
 BATCH = 6000
